@@ -1,23 +1,30 @@
 (* The exact ring lexer computes the stream lexer of StreamLex.v. *)
 From InfluxQL Require Import Base.Prelude Lex.Token Lex.Reader Lex.Scanner Proofs.LexerSafety.
-From InfluxQL Require Import Lex.StreamLex Proofs.RingAt.
-
-Lemma rb_self r t : at_ r t -> rb (r_n r) r.
-Proof. intros [(Hb & Hi & Hn) _]. unfold rb. repeat split; try assumption; lia. Qed.
+From InfluxQL Require Import Lex.StreamLex.
+From InfluxQL Require Import Proofs.RingAt.
 
 Lemma len_tail (c : Z) t1 f : (length (c :: t1) < S f)%nat -> (length t1 < f)%nat.
 Proof. cbn. lia. Qed.
 
-Lemma unread_at' r t c : at_ r t -> r_n r <= 2 -> prev r 0 = c -> at_ (unread r) (ucons c t).
-Proof. intros H Hn <-. apply unread_at; assumption. Qed.
+Section Ref.
+Variable T : text.
+Notation at_ := (at_ T).
+Notation atH := (atH T).
 
-Lemma at_n r t : at_ r t -> 0 <= r_n r <= 3.
-Proof. intros [(_ & _ & ?) _]. assumption. Qed.
+Lemma read_at' r t : at_ r t ->
+  exists p r', read r = ((fst (sread t), p), r') /\ at_ r' (snd (sread t)) /\ r_n r' = Z.max (r_n r - 1) 0 /\
+               atH r' [(fst (sread t), p)] (snd (sread t)) /\ slot_at T t (fst (sread t), p).
+Proof.
+  intros H. destruct (read_atH T r [] t H) as (p & r' & E & Ha & Hn & Hs). exists p, r'.
+  split; [exact E|]. split; [exact (atH_weaken T _ _ _ Ha)|]. split; [exact Hn|]. split; [exact Ha|exact Hs].
+Qed.
+
+Lemma unread_at' r t c p : at_ r t -> r_n r <= 2 -> atH r [(c, p)] t -> at_ (unread r) (ucons c t).
+Proof. intros _ Hn H. exact (unread_atH T r (c, p) [] t H Hn). Qed.
 
 Ltac rd H p r' E Hat Hn Hp0 Hp1 :=
   destruct (read_at' _ _ H) as (p & r' & E & Hat & Hn & Hp0 & Hp1); rewrite E; cbn [sread fst snd] in Hat, Hp0, Hn |- *.
 
-Section Ref.
 Variable ulower : Z -> Z.
 
 Lemma ref_digits f1 : forall f2 r t acc, at_ r t -> (length t < f1)%nat -> (length t < f2)%nat ->
@@ -25,21 +32,21 @@ Lemma ref_digits f1 : forall f2 r t acc, at_ r t -> (length t < f1)%nat -> (leng
 Proof.
   induction f1 as [|f1 IH]; intros f2 r t acc H L1 L2; [lia|]. destruct f2 as [|f2]; [lia|].
   cbn [scan_digits s_digits]. rd H p r1 E H1 Hn Hp0 Hp1.
-  pose proof (at_n _ _ H) as Hr.
+  pose proof (at_n _ _ _ H) as Hr.
   destruct t as [|c t1]; cbn [sread fst snd] in *.
-  - cbn. eexists. split; [reflexivity|]. exact (unread_at' _ _ _ H1 ltac:(lia) Hp0).
+  - cbn. eexists. split; [reflexivity|]. exact (unread_at' _ _ _ _ H1 ltac:(lia) Hp0).
   - destruct (negb (is_digit c)).
-    + eexists. split; [reflexivity|]. cbn [snd]. apply unread_at'; [exact H1|lia|exact Hp0].
+    + eexists. split; [reflexivity|]. cbn [snd]. eapply unread_at'; [exact H1|lia|exact Hp0].
     + apply IH; [exact H1|cbn in L1; lia|cbn in L2; lia].
 Qed.
 
-Ltac fin H1 Hp0 := eexists; split; [reflexivity|]; cbn [snd]; first [exact H1 | exact (unread_at' _ _ _ H1 ltac:(lia) Hp0)].
+Ltac fin H1 Hp0 := eexists; split; [reflexivity|]; cbn [snd]; first [exact H1 | exact (unread_at' _ _ _ _ H1 ltac:(lia) Hp0)].
 
 Lemma ref_dur_letters f1 : forall f2 r t acc, at_ r t -> (length t < f1)%nat -> (length t < f2)%nat ->
   exists r', scan_dur_letters f1 r acc = (fst (s_dur_letters f2 t acc), r') /\ at_ r' (snd (s_dur_letters f2 t acc)).
 Proof.
   induction f1 as [|f1 IH]; intros f2 r t acc H L1 L2; [lia|]. destruct f2 as [|f2]; [lia|].
-  cbn [scan_dur_letters s_dur_letters]. rd H p r1 E H1 Hn Hp0 Hp1. pose proof (at_n _ _ H) as Hr.
+  cbn [scan_dur_letters s_dur_letters]. rd H p r1 E H1 Hn Hp0 Hp1. pose proof (at_n _ _ _ H) as Hr.
   destruct t as [|c t1]; cbn [sread fst snd] in *.
   - cbn. fin H1 Hp0.
   - destruct (negb (is_dur_letter c)); [fin H1 Hp0|]. apply IH; [exact H1|cbn in L1; lia|cbn in L2; lia].
@@ -49,7 +56,7 @@ Lemma ref_dur_rest f1 : forall f2 r t acc, at_ r t -> (length t < f1)%nat -> (le
   exists r', scan_dur_rest f1 r acc = (fst (s_dur_rest f2 t acc), r') /\ at_ r' (snd (s_dur_rest f2 t acc)).
 Proof.
   induction f1 as [|f1 IH]; intros f2 r t acc H L1 L2; [lia|]. destruct f2 as [|f2]; [lia|].
-  cbn [scan_dur_rest s_dur_rest]. rd H p r1 E H1 Hn Hp0 Hp1. pose proof (at_n _ _ H) as Hr.
+  cbn [scan_dur_rest s_dur_rest]. rd H p r1 E H1 Hn Hp0 Hp1. pose proof (at_n _ _ _ H) as Hr.
   destruct t as [|c t1]; cbn [sread fst snd] in *.
   - cbn. fin H1 Hp0.
   - destruct (is_dur_letter c || is_digit c); [|fin H1 Hp0]. apply IH; [exact H1|cbn in L1; lia|cbn in L2; lia].
@@ -59,7 +66,7 @@ Lemma ref_ws_loop f1 : forall f2 r t acc, at_ r t -> (length t < f1)%nat -> (len
   exists r', scan_ws_loop f1 r acc = (fst (s_ws_loop f2 t acc), r') /\ at_ r' (snd (s_ws_loop f2 t acc)).
 Proof.
   induction f1 as [|f1 IH]; intros f2 r t acc H L1 L2; [lia|]. destruct f2 as [|f2]; [lia|].
-  cbn [scan_ws_loop s_ws_loop]. rd H p r1 E H1 Hn Hp0 Hp1. pose proof (at_n _ _ H) as Hr.
+  cbn [scan_ws_loop s_ws_loop]. rd H p r1 E H1 Hn Hp0 Hp1. pose proof (at_n _ _ _ H) as Hr.
   destruct t as [|c t1]; cbn [sread fst snd] in *.
   - cbn. fin H1 Hp0.
   - destruct (c =? 0); [fin H1 Hp0|]. destruct (negb (is_whitespace c)); [fin H1 Hp0|].
@@ -70,7 +77,7 @@ Lemma ref_bare_ident f1 : forall f2 r t acc, at_ r t -> (length t < f1)%nat -> (
   exists r', scan_bare_ident f1 r acc = (fst (s_bare_ident f2 t acc), r') /\ at_ r' (snd (s_bare_ident f2 t acc)).
 Proof.
   induction f1 as [|f1 IH]; intros f2 r t acc H L1 L2; [lia|]. destruct f2 as [|f2]; [lia|].
-  cbn [scan_bare_ident s_bare_ident]. rd H p r1 E H1 Hn Hp0 Hp1. pose proof (at_n _ _ H) as Hr.
+  cbn [scan_bare_ident s_bare_ident]. rd H p r1 E H1 Hn Hp0 Hp1. pose proof (at_n _ _ _ H) as Hr.
   destruct t as [|c t1]; cbn [sread fst snd] in *.
   - cbn. fin H1 Hp0.
   - destruct (c =? 0); [fin H1 Hp0|]. destruct (negb (is_ident_char c)); [fin H1 Hp0|].
@@ -107,7 +114,7 @@ Lemma ref_string_loop f1 : forall f2 ending r t acc, at_ r t -> (length t < f1)%
              at_ r' (snd (s_string_loop f2 ending t acc)) /\ r_n r' <= r_n r.
 Proof.
   induction f1 as [|f1 IH]; intros f2 ending r t acc H L1 L2; [lia|]. destruct f2 as [|f2]; [lia|].
-  cbn [scan_string_loop s_string_loop]. rd H p r1 E H1 Hn Hp0 Hp1. pose proof (at_n _ _ H) as Hr.
+  cbn [scan_string_loop s_string_loop]. rd H p r1 E H1 Hn Hp0 Hp1. pose proof (at_n _ _ _ H) as Hr.
   assert (Hn1 : r_n r1 <= r_n r) by lia.
   destruct t as [|c t1]; cbn [sread fst snd] in *.
   - destruct (0 =? ending); [eexists; split; [reflexivity|split; [exact H1|exact Hn1]]|].
@@ -116,7 +123,7 @@ Proof.
     destruct (c =? ending); [eexists; split; [reflexivity|split; [exact H1|exact Hn1]]|].
     destruct ((c =? 0) || (c =? 10)); [eexists; split; [reflexivity|split; [exact H1|exact Hn1]]|].
     destruct (c =? 92).
-    + rd H1 p2 r2 E2 H2 Hn2 Hp20 Hp21. pose proof (at_n _ _ H1) as Hr1. assert (Hn2' : r_n r2 <= r_n r) by lia.
+    + rd H1 p2 r2 E2 H2 Hn2 Hp20 Hp21. pose proof (at_n _ _ _ H1) as Hr1. assert (Hn2' : r_n r2 <= r_n r) by lia.
       assert (IH' : forall a, exists r', scan_string_loop f1 ending r2 a = (fst (s_string_loop f2 ending (snd (sread t1)) a), r') /\
                  at_ r' (snd (s_string_loop f2 ending (snd (sread t1)) a)) /\ r_n r' <= r_n r).
       { intros a. destruct (IH f2 ending r2 (snd (sread t1)) a H2) as (r' & Er & Ha & Hn').
@@ -135,7 +142,7 @@ Definition tl_of (x : tokres) : token * text := (fst (fst x), snd x).
 Lemma sfuel_gt t : (length t < sfuel t)%nat.
 Proof. unfold sfuel. lia. Qed.
 Lemma fuel_gt r t : at_ r t -> (length t < read_fuel r)%nat.
-Proof. intros H. pose proof (fuel_at _ _ H). lia. Qed.
+Proof. intros H. pose proof (fuel_at _ _ _ H). lia. Qed.
 
 Lemma ref_ScanString r t : at_ r t ->
   exists r', ScanString r = (fst (s_ScanString t), r') /\ at_ r' (snd (s_ScanString t)) /\ r_n r' <= Z.max (r_n r - 1) 0.
@@ -147,12 +154,12 @@ Proof.
   exists r'. split; [exact Er|split; [exact Ha|lia]].
 Qed.
 
-Lemma ref_scan_string r t0 c : at_ r t0 -> r_n r <= 2 -> prev r 0 = c ->
+Lemma ref_scan_string r t0 c p : at_ r t0 -> r_n r <= 2 -> atH r [(c, p)] t0 ->
   tl_of (fst (scan_string r)) = fst (s_scan_string (ucons c t0)) /\
   at_ (snd (scan_string r)) (snd (s_scan_string (ucons c t0))) /\ r_n (snd (scan_string r)) <= r_n r.
 Proof.
-  intros H Hn Hp. pose proof (at_n _ _ H) as Hr. unfold scan_string, s_scan_string.
-  pose proof (check_at _ _ (unread_at' _ _ _ H Hn Hp)) as Hc.
+  intros H Hn Hp. pose proof (at_n _ _ _ H) as Hr. unfold scan_string, s_scan_string.
+  pose proof (check_at _ _ _ (unread_at' _ _ _ _ H Hn Hp)) as Hc.
   destruct (ref_ScanString _ _ Hc) as (r2 & E & H2 & Hn2). rewrite E.
   rewrite check_n, unread_n in Hn2.
   destruct (s_ScanString (ucons c t0)) as [[lit err] t2]. cbn [fst snd] in *.
@@ -180,18 +187,18 @@ Lemma ref_ident_loop f1 : forall f2 pos r t acc, at_ r t -> (length t < f1)%nat 
      option_map tl_of early = fst (fst (s_ident_loop f2 t acc)) /\ at_ r' (snd (s_ident_loop f2 t acc)).
 Proof.
   induction f1 as [|f1 IH]; intros f2 pos r t acc H L1 L2; [lia|]. destruct f2 as [|f2]; [lia|].
-  cbn [scan_ident_loop s_ident_loop]. rd H p r1 E H1 Hn Hp0 Hp1. pose proof (at_n _ _ H) as Hr.
+  cbn [scan_ident_loop s_ident_loop]. rd H p r1 E H1 Hn Hp0 Hp1. pose proof (at_n _ _ _ H) as Hr.
   destruct t as [|c t1]; cbn [sread fst snd] in *.
   - cbn. eexists None, _. split; [reflexivity|split; [reflexivity|exact H1]].
   - destruct (Z.eqb_spec c 0) as [Ec|Ec]; [eexists None, _; split; [reflexivity|split; [reflexivity|exact H1]]|].
     destruct (c =? 34).
-    + destruct (ref_scan_string r1 t1 c H1 ltac:(lia) Hp0) as (Et & Ha & _).
+    + destruct (ref_scan_string r1 t1 c _ H1 ltac:(lia) Hp0) as (Et & Ha & _).
       destruct (scan_string r1) as [[[tok0 pos0] lit0] r2]. destruct (s_scan_string (ucons c t1)) as [[tok0' lit0'] t2].
       cbn [tl_of fst snd] in *. injection Et as <- <-.
       destruct tok0; (eexists (Some _), _; split; [reflexivity|split; [reflexivity|exact Ha]]).
     + destruct (is_ident_char c) eqn:Ei.
-      * pose proof (unread_at' _ _ _ H1 ltac:(lia) Hp0) as Hu.
-        pose proof (fuel_at _ _ Hu) as Hf. rewrite fuel_unread in Hf by lia.
+      * pose proof (unread_at' _ _ _ _ H1 ltac:(lia) Hp0) as Hu.
+        pose proof (fuel_at _ _ _ Hu) as Hf. rewrite fuel_unread in Hf by lia.
         destruct (ref_bare_ident (read_fuel r1) (sfuel (ucons c t1)) _ _ [] Hu ltac:(lia) (sfuel_gt _)) as (r2 & Eb & Hb).
         rewrite Eb.
         assert (Hlen : (length (snd (s_bare_ident (sfuel (ucons c t1)) (ucons c t1) [])) <= length t1)%nat).
@@ -200,21 +207,21 @@ Proof.
           rewrite Ei. cbn [negb]. apply bare_len. }
         destruct (s_bare_ident (sfuel (ucons c t1)) (ucons c t1) []) as [s0 t2]. cbn [fst snd] in *.
         apply IH; [exact Hb|cbn in L1; lia|cbn in L2; lia].
-      * eexists None, _. split; [reflexivity|split; [reflexivity|exact (unread_at' _ _ _ H1 ltac:(lia) Hp0)]].
+      * eexists None, _. split; [reflexivity|split; [reflexivity|exact (unread_at' _ _ _ _ H1 ltac:(lia) Hp0)]].
 Qed.
 
 
 Lemma at_canon r t : at_ r t -> ucons (fst (sread t)) (snd (sread t)) = t.
 Proof.
-  intros [_ ->]. rewrite sread_strip. cbn [fst snd]. destruct (pend r ++ fold_cr (r_src r)) as [|c y]; reflexivity.
+  intros (k & _ & -> & _). rewrite sread_strip. cbn [fst snd]. destruct (skipn k T) as [|c y]; reflexivity.
 Qed.
 
 Lemma ref_scan_ident kw r t : at_ r t ->
   tl_of (fst (scan_ident ulower kw r)) = fst (s_scan_ident ulower kw t) /\
   at_ (snd (scan_ident ulower kw r)) (snd (s_scan_ident ulower kw t)).
 Proof.
-  intros H. unfold scan_ident, s_scan_ident. pose proof (at_canon _ _ H) as Hc. pose proof (at_n _ _ H) as Hr.
-  rd H p r1 E H1 Hn Hp0 Hp1. pose proof (unread_at' _ _ _ H1 ltac:(lia) Hp0) as Hu. rewrite Hc in Hu.
+  intros H. unfold scan_ident, s_scan_ident. pose proof (at_canon _ _ H) as Hc. pose proof (at_n _ _ _ H) as Hr.
+  rd H p r1 E H1 Hn Hp0 Hp1. pose proof (unread_at' _ _ _ _ H1 ltac:(lia) Hp0) as Hu. rewrite Hc in Hu.
   destruct (ref_ident_loop (read_fuel (unread r1)) (sfuel t) p _ _ [] Hu (fuel_gt _ _ Hu) (sfuel_gt _)) as (early & r2 & El & Ee & Ha).
   rewrite El. destruct (s_ident_loop (sfuel t) t []) as [[early' lit] t2]. cbn [fst snd] in *.
   destruct early as [tr|]; cbn [option_map] in Ee; subst early'.
@@ -223,15 +230,14 @@ Proof.
     destruct (lookup ulower lit); cbn; (split; [reflexivity|exact Ha]).
 Qed.
 
-Lemma ref_scan_whitespace r t c : at_ r t -> prev r 0 = c ->
+Lemma ref_scan_whitespace r t c p : at_ r t -> r_n r <= 2 -> atH r [(c, p)] t ->
   tl_of (fst (scan_whitespace r)) = fst (s_scan_whitespace c t) /\
-  at_ (snd (scan_whitespace r)) (snd (s_scan_whitespace c t)).
+  at_ (snd (scan_whitespace r)) (snd (s_scan_whitespace c t)) /\ snd (fst (fst (scan_whitespace r))) = p.
 Proof.
-  intros H Hp. unfold scan_whitespace, s_scan_whitespace. pose proof (curr_prev r) as Hc. rewrite Hp in Hc.
-  destruct (curr r) as [ch pos]. cbn [fst] in Hc. subst ch.
-  pose proof (check_at _ _ H) as Hk.
+  intros H Hn Hp. unfold scan_whitespace, s_scan_whitespace. rewrite (curr_atH T r _ _ _ Hp Hn).
+  pose proof (check_at _ _ _ H) as Hk.
   destruct (ref_ws_loop (read_fuel (set_bad r (r_bad r || curr_panics r))) (sfuel t) _ _ [c] Hk (fuel_gt _ _ Hk) (sfuel_gt _)) as (r1 & El & Ha).
-  rewrite El. destruct (s_ws_loop (sfuel t) t [c]) as [lit t1]. cbn. split; [reflexivity|exact Ha].
+  rewrite El. destruct (s_ws_loop (sfuel t) t [c]) as [lit t1]. cbn. split; [reflexivity|split; [exact Ha|reflexivity]].
 Qed.
 
 Definition number_go (pos : pos) (r : reader) : tokres * reader :=
@@ -271,16 +277,16 @@ Proof.
   intros H. unfold number_go, s_number_go.
   destruct (ref_digits (read_fuel r) (sfuel t) r t [] H (fuel_gt _ _ H) (sfuel_gt _)) as (r1 & Ed & H1). rewrite Ed.
   destruct (s_digits (sfuel t) t []) as [d1 t1]. cbn [fst snd] in *.
-  rd H1 p2 r2 E2 H2 Hn2 Hp20 Hp21. pose proof (at_n _ _ H1) as Hr1.
+  rd H1 p2 r2 E2 H2 Hn2 Hp20 Hp21. pose proof (at_n _ _ _ H1) as Hr1.
   destruct (sread t1) as [ch0 t2]. cbn [fst snd] in *.
   destruct (ch0 =? 46).
-  - rd H2 p3 r3 E3 H3 Hn3 Hp30 Hp31. pose proof (at_n _ _ H2) as Hr2.
+  - rd H2 p3 r3 E3 H3 Hn3 Hp30 Hp31. pose proof (at_n _ _ _ H2) as Hr2.
     destruct (sread t2) as [ch1 t3]. cbn [fst snd] in *.
     destruct (is_digit ch1).
     + destruct (ref_digits (read_fuel r3) (sfuel t3) r3 t3 [] H3 (fuel_gt _ _ H3) (sfuel_gt _)) as (r4 & Ed2 & H4). rewrite Ed2.
       destruct (s_digits (sfuel t3) t3 []) as [d2 t4]. cbn. split; [reflexivity|exact H4].
-    + cbn. split; [reflexivity|exact (unread_at' _ _ _ H3 ltac:(lia) Hp30)].
-  - cbn [negb]. pose proof (unread_at' _ _ _ H2 ltac:(lia) Hp20) as Hu.
+    + cbn. split; [reflexivity|exact (unread_at' _ _ _ _ H3 ltac:(lia) Hp30)].
+  - cbn [negb]. pose proof (unread_at' _ _ _ _ H2 ltac:(lia) Hp20) as Hu.
     rd Hu p4 r4 E4 H4 Hn4 Hp40 Hp41. rewrite sread_ucons in *. cbn [fst snd] in *.
     rewrite unread_n in Hn4.
     destruct (is_dur_letter ch0).
@@ -288,51 +294,102 @@ Proof.
       destruct (s_dur_letters (sfuel t2) t2 [ch0]) as [acc1 t5]. cbn [fst snd] in *.
       destruct (ref_dur_rest (read_fuel r5) (sfuel t5) r5 t5 acc1 H5 (fuel_gt _ _ H5) (sfuel_gt _)) as (r6 & E6 & H6). rewrite E6.
       destruct (s_dur_rest (sfuel t5) t5 acc1) as [acc2 t6]. cbn. split; [reflexivity|exact H6].
-    + cbn. split; [reflexivity|exact (unread_at' _ _ _ H4 ltac:(lia) Hp40)].
+    + cbn. split; [reflexivity|exact (unread_at' _ _ _ _ H4 ltac:(lia) Hp40)].
 Qed.
 
 
-Lemma ref_scan_number r t c : at_ r t -> r_n r <= 2 -> prev r 0 = c ->
-  tl_of (fst (scan_number r)) = fst (s_scan_number c t) /\ at_ (snd (scan_number r)) (snd (s_scan_number c t)).
+Definition strtok (t : token) : bool := match t with STRING | BADSTRING | BADESCAPE => true | _ => false end.
+
+Lemma number_go_pos pos r : snd (fst (fst (number_go pos r))) = pos.
 Proof.
-  intros H Hn Hp. rewrite scan_number_eq. unfold s_scan_number. pose proof (curr_prev r) as Hc. rewrite Hp in Hc.
-  destruct (curr r) as [ch pos]. cbn [fst] in Hc. subst ch. pose proof (at_n _ _ H) as Hr.
-  pose proof (check_at _ _ H) as Hk. set (rk := set_bad r (r_bad r || curr_panics r)) in *.
-  assert (Hnk : r_n rk = r_n r) by reflexivity. assert (Hpk : prev rk 0 = c) by exact Hp.
+  unfold number_go.
+  repeat match goal with
+         | |- context [let '(_, _) := ?x in _] => destruct x
+         | |- context [if ?b then _ else _] => destruct b
+         end; reflexivity.
+Qed.
+
+Lemma ref_scan_number r t c p : atH r [(c, p)] t -> r_n r <= 2 ->
+  tl_of (fst (scan_number r)) = fst (s_scan_number c t) /\ at_ (snd (scan_number r)) (snd (s_scan_number c t)) /\
+  snd (fst (fst (scan_number r))) = p.
+Proof.
+  intros Hh Hn. pose proof (atH_weaken T _ _ _ Hh) as H. rewrite scan_number_eq. unfold s_scan_number.
+  rewrite (curr_atH T r _ _ _ Hh Hn). pose proof (at_n _ _ _ H) as Hr.
+  pose proof (check_atH T _ _ _ Hh) as Hkh. set (rk := set_bad r (r_bad r || curr_panics r)) in *.
+  assert (Hnk : r_n rk = r_n r) by reflexivity.
   destruct (c =? 46) eqn:E46.
   - apply Z.eqb_eq in E46.
-    rd Hk p1 r1 E1 H1 Hn1 Hp10 Hp11. destruct (sread t) as [ch1 t']. cbn [fst snd] in *.
-    pose proof (unread_at' _ _ _ H1 ltac:(lia) Hp10) as Hu.
-    destruct (negb (is_digit ch1)); [cbn; split; [reflexivity|exact Hu]|].
-    apply ref_number_go. apply unread_at'; [exact Hu|rewrite unread_n; lia|].
-    rewrite unread_prev. cbn. rewrite Hp11, Hpk. exact E46.
-  - apply ref_number_go. apply unread_at'; [exact Hk|lia|exact Hpk].
+    destruct (read_atH T rk _ t Hkh) as (p1 & r1 & E1 & H1h & Hn1 & _). rewrite E1.
+    destruct (sread t) as [ch1 t']. cbn [fst snd] in *.
+    pose proof (unread_atH T r1 _ _ _ H1h ltac:(lia)) as Huh. cbn [fst] in Huh.
+    destruct (negb (is_digit ch1)); [cbn; split; [reflexivity|split; [exact (atH_weaken T _ _ _ Huh)|reflexivity]]|].
+    pose proof (unread_atH T _ _ _ _ Huh ltac:(rewrite unread_n; lia)) as Huu. cbn [fst] in Huu. rewrite E46 in Huu.
+    destruct (ref_number_go p _ _ Huu) as [E1' E2']. split; [exact E1'|]. split; [exact E2'|apply number_go_pos].
+  - pose proof (unread_atH T rk _ _ _ Hkh ltac:(lia)) as Hu. cbn [fst] in Hu.
+    destruct (ref_number_go p _ _ Hu) as [E1' E2']. split; [exact E1'|]. split; [exact E2'|apply number_go_pos].
 Qed.
 
-Ltac one H1 := cbn; split; [reflexivity|exact H1].
-
-Theorem ref_scan r t : at_ r t -> r_n r <= 2 ->
-  tl_of (fst (scan ulower r)) = fst (s_scan ulower t) /\ at_ (snd (scan ulower r)) (snd (s_scan ulower t)).
+(* the early result of the identifier loop is a string-like token, or carries the identifier's position *)
+Lemma ident_loop_early_pos f : forall pos r acc tk p' l acc' r',
+  scan_ident_loop f pos r acc = ((Some (tk, p', l), acc'), r') -> strtok tk = true \/ p' = pos.
 Proof.
-  intros H Hn. unfold scan, s_scan. pose proof (at_n _ _ H) as Hr.
-  rd H p r1 E H1 Hn1 Hp0 Hp1. destruct (sread t) as [ch0 t1]. cbn [fst snd] in *.
+  induction f as [|f IH]; intros pos r acc tk p' l acc' r'; cbn [scan_ident_loop]; [intros E; discriminate E|].
+  destruct (read r) as [[ch p0] r1]. destruct (ch =? 0); [intros E; discriminate E|]. destruct (ch =? 34).
+  - destruct (scan_string r1) as [[[tok0 pos0] lit0] r2].
+    destruct tok0; intros E; inversion E; subst; first [left; reflexivity | right; reflexivity].
+  - destruct (is_ident_char ch); [|intros E; discriminate E]. destruct (scan_bare_ident _ _ _) as [s0 r2]. apply IH.
+Qed.
+
+Lemma scan_ident_pos kw r a h t : atH r (a :: h) t -> r_n r <= 2 ->
+  strtok (fst (fst (fst (scan_ident ulower kw (unread r))))) = false ->
+  snd (fst (fst (scan_ident ulower kw (unread r)))) = snd a.
+Proof.
+  intros Hh Hn. unfold scan_ident. destruct (reread_atH T r a h t Hh Hn) as (r' & E & _). rewrite E. destruct a as [c p].
+  destruct (scan_ident_loop (read_fuel (unread r')) p (unread r') []) as [[early lit] r2] eqn:El.
+  destruct early as [[[tk p'] l]|].
+  - cbn. intros Hs. destruct (ident_loop_early_pos _ _ _ _ _ _ _ _ _ El) as [Hx|Hx]; [congruence|exact Hx].
+  - intros _. destruct kw; [|reflexivity]. destruct (lookup ulower lit); reflexivity.
+Qed.
+
+Ltac one H1 := cbn; split; [reflexivity|split; [exact H1|intros _; reflexivity]].
+
+(* one Scan: token, literal and remaining text are those of the plain-text lexer; and unless the token is
+   string-like, its position is the recorded position of the first rune of the text *)
+Theorem ref_scan r t : at_ r t -> r_n r <= 2 ->
+  tl_of (fst (scan ulower r)) = fst (s_scan ulower t) /\ at_ (snd (scan ulower r)) (snd (s_scan ulower t)) /\
+  (strtok (fst (fst (fst (scan ulower r)))) = false -> slot_at T t (fst (sread t), snd (fst (fst (scan ulower r))))).
+Proof.
+  intros H Hn. pose proof (at_n _ _ _ H) as Hr.
+  destruct (read_at' _ _ H) as (p & r1 & E & H1 & Hn1 & Hp0 & Hp1).
+  cut (tl_of (fst (scan ulower r)) = fst (s_scan ulower t) /\ at_ (snd (scan ulower r)) (snd (s_scan ulower t)) /\
+       (strtok (fst (fst (fst (scan ulower r)))) = false -> snd (fst (fst (scan ulower r))) = p)).
+  { intros (A1 & A2 & A3). split; [exact A1|]. split; [exact A2|]. intros Hs. rewrite (A3 Hs). exact Hp1. }
+  clear Hp1. unfold scan, s_scan. rewrite E. destruct (sread t) as [ch0 t1]. cbn [fst snd] in *.
   assert (Hn1' : r_n r1 <= 1) by lia.
-  pose proof (unread_at' _ _ _ H1 ltac:(lia) Hp0) as Hu.
+  pose proof (unread_at' _ _ _ _ H1 ltac:(lia) Hp0) as Hu.
   (* the second rune, for the tokens that look one ahead *)
-  destruct (read_at' _ _ H1) as (p2 & r2 & E2 & H2 & Hn2 & Hp20 & Hp21).
+  destruct (read_atH T r1 _ _ Hp0) as (p2 & r2 & E2 & H2h & Hn2 & _). pose proof (atH_weaken T _ _ _ H2h) as H2.
   assert (Hn2' : r_n r2 = 0) by lia.
-  pose proof (unread_at' _ _ _ H2 ltac:(lia) Hp20) as Hu2.
-  destruct (is_whitespace ch0); [apply ref_scan_whitespace; assumption|].
-  destruct (is_letter ch0 || (ch0 =? 95)); [apply ref_scan_ident; exact Hu|].
-  destruct (is_digit ch0); [apply ref_scan_number; [exact H1|lia|exact Hp0]|].
+  pose proof (unread_atH T r2 _ _ _ H2h ltac:(lia)) as Hu2h. cbn [fst] in Hu2h. pose proof (atH_weaken T _ _ _ Hu2h) as Hu2.
+  destruct (is_whitespace ch0); [apply (ref_scan_whitespace r1 t1 ch0 p H1 ltac:(lia) Hp0) || (destruct (ref_scan_whitespace r1 t1 ch0 p H1 ltac:(lia) Hp0) as (B1 & B2 & B3); split; [exact B1|split; [exact B2|intros _; exact B3]])|].
+  destruct (is_letter ch0 || (ch0 =? 95)).
+  { destruct (ref_scan_ident true _ _ Hu) as [B1 B2]. split; [exact B1|]. split; [exact B2|].
+    intros Hs. exact (scan_ident_pos true r1 _ _ _ Hp0 ltac:(lia) Hs). }
+  destruct (is_digit ch0).
+  { destruct (ref_scan_number r1 t1 ch0 p Hp0 ltac:(lia)) as (B1 & B2 & B3). split; [exact B1|split; [exact B2|intros _; exact B3]]. }
   destruct (ch0 =? 0); [one H1|].
-  destruct (ch0 =? 34); [apply ref_scan_ident; exact Hu|].
+  destruct (ch0 =? 34).
+  { destruct (ref_scan_ident true _ _ Hu) as [B1 B2]. split; [exact B1|]. split; [exact B2|].
+    intros Hs. exact (scan_ident_pos true r1 _ _ _ Hp0 ltac:(lia) Hs). }
   destruct (ch0 =? 39).
-  { destruct (ref_scan_string r1 t1 ch0 H1 ltac:(lia) Hp0) as (Et & Ha & _). split; [exact Et|exact Ha]. }
+  { destruct (ref_scan_string r1 t1 ch0 _ H1 ltac:(lia) Hp0) as (Et & Ha & _). split; [exact Et|]. split; [exact Ha|].
+    unfold scan_string. destruct (ScanString _) as [[lit err] r3]. destruct (err =? 1); [cbn; discriminate|].
+    destruct (err =? 2); cbn; discriminate. }
   destruct (ch0 =? 46) eqn:E46.
   { apply Z.eqb_eq in E46. rewrite E2. destruct (sread t1) as [ch1 t2]. cbn [fst snd] in *.
-    destruct (is_digit ch1); [|one Hu2].
-    apply ref_scan_number; [exact Hu2|rewrite unread_n; lia|]. rewrite unread_prev. cbn. rewrite Hp21, Hp0. exact E46. }
+    destruct (is_digit ch1); [|one Hu2]. subst ch0.
+    destruct (ref_scan_number (unread r2) (ucons ch1 t2) 46 p Hu2h ltac:(rewrite unread_n; lia)) as (B1 & B2 & B3).
+    split; [exact B1|split; [exact B2|intros _; exact B3]]. }
   destruct (ch0 =? 36).
   { destruct (ref_scan_ident false r1 t1 H1) as (Et & Ha).
     destruct (scan_ident ulower false r1) as [[[tok pos'] lit] r3]. destruct (s_scan_ident ulower false t1) as [[tok' lit'] t3].
@@ -340,7 +397,7 @@ Proof.
   destruct (ch0 =? 43); [one H1|].
   destruct (ch0 =? 45).
   { rewrite E2. destruct (sread t1) as [ch1 t2]. cbn [fst snd] in *.
-    destruct (ch1 =? 45); [|one Hu2]. cbn. split; [reflexivity|].
+    destruct (ch1 =? 45); [|one Hu2]. cbn. split; [reflexivity|]. split; [|intros _; reflexivity].
     apply ref_skip_newline; [exact H2|apply fuel_gt; exact H2|apply sfuel_gt]. }
   destruct (ch0 =? 42); [one H1|].
   destruct (ch0 =? 47).
